@@ -198,10 +198,17 @@ def single_interval_body_possible(connection, kind, gs):
     """True when, counting tie-ambiguous levels either way, some group with the
     most distinct levels consists of a single interval (the situation of the
     recorded C08 finding)"""
+    groupings = []
     for variant in ('all', 'must'):
         comps, _ = main_body(connection, kind, gs, variant)
         if comps and any(len(m) == 1 for nl, m in comps if nl == comps[0][0]):
             return True
+        groupings.append(sorted(tuple(sorted(m)) for nl, m in comps))
+    # the two extremes bracket the level counts, not the groupings: when tie-ambiguous levels decide
+    # which intervals hang together at all, every mixture of the two is admissible (spowtd's rounding
+    # settles each such level on its own), and some mixture may leave a lone interval with the most levels
+    if groupings[0] != groupings[1]:
+        return True
     return False
 
 
